@@ -34,7 +34,7 @@ def job(prop):
             env = {"PYTHONPATH": wt}
             demo = os.path.join(d, "demo.py")
             # demos were written for /tmp/wt/<prop>: run them from the scratch worktree instead
-            demo_txt = open(demo).read().replace(f"/tmp/wt11/{prop}", wt).replace(f"/tmp/wt10/{prop}", wt).replace(f"/tmp/wt9/{prop}", wt).replace(f"/tmp/wt8/{prop}", wt).replace(f"/tmp/wt7/{prop}", wt).replace(f"/tmp/wt6/{prop}", wt).replace(f"/tmp/wt5/{prop}", wt).replace(f"/tmp/wt4/{prop}", wt).replace(f"/tmp/wt3/{prop}", wt).replace(f"/tmp/wt2/{prop}", wt).replace(f"/tmp/wt/{prop}", wt)
+            demo_txt = open(demo).read().replace(f"/tmp/wt12/{prop}", wt).replace(f"/tmp/wt11/{prop}", wt).replace(f"/tmp/wt10/{prop}", wt).replace(f"/tmp/wt9/{prop}", wt).replace(f"/tmp/wt8/{prop}", wt).replace(f"/tmp/wt7/{prop}", wt).replace(f"/tmp/wt6/{prop}", wt).replace(f"/tmp/wt5/{prop}", wt).replace(f"/tmp/wt4/{prop}", wt).replace(f"/tmp/wt3/{prop}", wt).replace(f"/tmp/wt2/{prop}", wt).replace(f"/tmp/wt/{prop}", wt)
             local_demo = os.path.join(wt, "_demo.py")
             open(local_demo, "w").write(demo_txt)
             rc0, o0 = sh([PY, "-W", "ignore", local_demo], wt, env)
